@@ -1244,6 +1244,30 @@ def many_scenarios(rng, n):
     return out
 
 
+def wide_groups(rng, n):
+    """C11 (cost proportional to size): a resource group that declares working hours (inline or through a shift) or limits,
+    with 6-10 people below it who inherit them."""
+    out = []
+    for i in range(n):
+        G = 3600
+        p = Proj(start=datetime(2025, 3, 3), G=G, length="+4w")
+        if rng.random() < 0.7:
+            p.scenarios = [("plan", [("delayed", [])])]          # every inherited attribute exists once per scenario
+        hours = rng.choice([std_hours(420, 900), std_hours(600, 1140, range(6))])
+        kind = rng.choice(["shift", "inline", "limits"])
+        if kind == "shift":
+            grp = p.add_res("grp", shift=p.add_shift("early", hours))
+        elif kind == "inline":
+            grp = p.add_res("grp", hours=hours)
+        else:
+            grp = p.add_res("grp", limits=[("d", 6 * 3600)])
+        people = [p.add_res("m%d" % k, parent=grp) for k in range(rng.randint(6, 10))]
+        for k in range(rng.randint(3, 6)):
+            p.add_task("t%d" % k, effort=G * rng.randint(2, 20), alloc=[rng.choice(people)])
+        out.append(("wide%04d" % i, p))
+    return out
+
+
 def corruptions(text, rng, k):
     """k corrupted variants of a valid text: token deletion / duplication / swap, truncation, brace damage,
     absurd numbers and dates."""
